@@ -10,12 +10,34 @@ it happens (the original programs are checked the same way and must build, else 
 
 The swap of `xform.build_run` is local to the calling (worker) process and undone on return.
 """
+import hashlib
+import json
+import os
+
 from vf import gf, xform
 
 
 def merged_build_run(sources, driver, extra=(), base=None, flags=xform.FLAGS, timeout=60):
+    """one-file build; successful results are memoised below `base` (the run's scratch directory) keyed by the exact
+    program text + flags, because all transformation variants of one switch combination share the original program"""
     parts = [t if t.endswith('\n') else t + '\n' for _, t in list(extra) + list(sources)] + [driver]
-    return gf.compile_and_run([('all.f90', ''.join(parts))], flags=list(flags), base=base, timeout=timeout)
+    text = ''.join(parts)
+    memo = None
+    if base:
+        key = hashlib.sha1(('\0'.join(flags) + '\0' + text).encode()).hexdigest()
+        memo = os.path.join(str(base), f'memo_{key}.json')
+        try:
+            with open(memo) as fh:
+                return json.load(fh)
+        except (OSError, ValueError):
+            pass
+    res = gf.compile_and_run([('all.f90', text)], flags=list(flags), base=base, timeout=timeout)
+    if memo and res.get('ok'):
+        tmp = f'{memo}.{os.getpid()}.tmp'
+        with open(tmp, 'w') as fh:
+            json.dump(res, fh)
+        os.replace(tmp, memo)
+    return res
 
 
 def run_case(case, apply, **kwargs):
